@@ -6,7 +6,7 @@ on_hci_disconnection_complete_event (queue wiring), bumble.utils.FlowControlAsyn
 """
 import collections
 
-from vf.e1 import harness
+from vf.e1 import harness, concrete as C
 from vf import flags as _flags
 from vf import detloop
 
@@ -234,11 +234,11 @@ def _host_with_queues(n_acl, n_le):
     return h, sink
 
 
-@harness(pre=['1 <= n_le <= 3 and 1 <= n_acl <= 3 and 1 <= sends <= 4 and 0 <= c0 <= 3 and 0 <= c1 <= 3', '3 <= hx <= 4'],
+@harness(pre=['1 <= n_le <= 3 and 1 <= n_acl <= 3 and 1 <= sends <= 4 and 0 <= c0 <= 3 and 0 <= c1 <= 3', '3 <= hx <= 4', '0 <= pos <= 2'],
          family='host-wiring', grid={'n_le': [1, 2], 'n_acl': [2], 'sends': [1, 3], 'c0': [0, 1, 3]}, timeout=(20, 120),
          kernels=('bumble.host.Host.on_hci_number_of_completed_packets_event', 'bumble.host.Host.get_data_packet_queue', 'bumble.host.Host.send_acl_sdu') + K_QUEUE,
-         bounds='one LE and one BR/EDR connection, 1..4 one-fragment SDUs on each, one Number_Of_Completed_Packets event with symbolic counts and a third (unknown) handle')
-def host_completion_event(n_le: int, n_acl: int, sends: int, c0: int, c1: int, hx: int) -> bool:
+         bounds='one LE and one BR/EDR connection, 1..4 one-fragment SDUs on each, one Number_Of_Completed_Packets event with symbolic counts and a third (unknown) handle listed first, second or last (symbolic)')
+def host_completion_event(n_le: int, n_acl: int, sends: int, c0: int, c1: int, hx: int, pos: int) -> bool:
     from bumble.core import PhysicalTransport
     from bumble import host as bhost
     h, sink = _host_with_queues(n_acl, n_le)
@@ -251,7 +251,9 @@ def host_completion_event(n_le: int, n_acl: int, sends: int, c0: int, c1: int, h
     le_q, acl_q = h.le_acl_packet_queue, h.acl_packet_queue
     if len(sink.out) != min(sends, n_le) + min(sends, n_acl):
         return False
-    ev = hci.HCI_Number_Of_Completed_Packets_Event(connection_handles=[1, 2, hx], num_completed_packets=[c0, c1, 1])
+    entries = [(1, c0), (2, c1)]
+    entries.insert(C(pos, 0, 2), (hx, 1))
+    ev = hci.HCI_Number_Of_Completed_Packets_Event(connection_handles=[e[0] for e in entries], num_completed_packets=[e[1] for e in entries])
     n0 = len(sink.out)
     h.on_hci_number_of_completed_packets_event(ev)
     d_le = min(c0, min(sends, n_le))
@@ -313,7 +315,7 @@ def _canary_pipe_lifo():
          timeout=(40, 90), canaries=[('pipe-lifo', _canary_pipe_lifo)],
          grids=[(('quick',), {'o1': [0, 1, 2, 3], 'o2': [0, 1, 2, 3], 'o6': [2]}),
                 (('thorough',), {'o1': [0, 1, 2, 3], 'o2': [0, 1, 2, 3], 'o3': [0, 1, 2, 3]})],
-         bounds='schedule of 6 symbolic steps from {write next packet (3 packets of 2,1,1 bytes), pause, resume, sink progress (the awaited drain completes)}, threshold 0..2; the pump task runs to quiescence after every step')
+         bounds='schedule of 6 symbolic steps from {write next packet (3 packets of 2, 1 and 0 bytes), pause, resume, sink progress (the awaited drain completes)}, threshold 0..2; the pump task runs to quiescence after every step')
 def pipe_order(threshold: int, o1: int, o2: int, o3: int, o4: int, o5: int, o6: int) -> bool:
     with detloop.running() as loop:
         got = []
@@ -325,7 +327,7 @@ def pipe_order(threshold: int, o1: int, o2: int, o3: int, o4: int, o5: int, o6: 
             await f
         pipe = utils.FlowControlAsyncPipe(lambda: None, lambda: None, write_to_sink=got.append, drain_sink=drain_sink, threshold=threshold)
         pipe.start()
-        packets = [b'\xa0\xa0', b'\xa1', b'\xa2']
+        packets = [b'\xa0\xa0', b'\xa1', b'']            # the last one is a zero-length packet
         written = []
         for o in (o1, o2, o3, o4, o5, o6):
             if o == 0:
@@ -353,6 +355,31 @@ def pipe_order(threshold: int, o1: int, o2: int, o3: int, o4: int, o5: int, o6: 
 
 
 _flags.int_format_placeholder = True     # log f-strings with symbolic ints are not the subject here (see vf/flags.py)
+
+
+@harness(pre=['1 <= maxf <= 2 and 2 <= n <= 4 and 1 <= c <= 2'], family='queue-step', twin=True, kernels=K_QUEUE, timeout=(40, 150),
+         bounds='a "flow" listener that enqueues a new packet synchronously while older packets of the same connection are still waiting (window 1..2, 2..4 packets queued, completions of 1..2 at a time; all symbolic): the controller receives the packets in the order they were submitted')
+def enqueue_from_flow_listener_keeps_order(maxf: int, n: int, c: int) -> bool:
+    maxf, n, c = C(maxf, 1, 2), C(n, 2, 4), C(c, 1, 2)
+    sent = []
+    q = DataPacketQueue(27, maxf, sent.append)
+    submitted = []
+    extra = [100]
+
+    def on_flow():
+        if extra[0] < 102:
+            submitted.append(extra[0])
+            q.enqueue(extra[0], 1)
+            extra[0] += 1
+    q.on('flow', on_flow)
+    for i in range(n):
+        submitted.append(i)
+        q.enqueue(i, 1)
+    for _ in range(12):
+        if len(sent) == len(submitted):
+            break
+        q.on_packets_completed(c, 1)
+    return sent == submitted
 
 
 def e2_obligations(tier):
